@@ -64,9 +64,19 @@ def rule_atomic(prog):
         return res
     ok_region = f.dominated_by(okb)
     writes = []
+    restores = set()
     for bi, si, st in f.all_rvalues():
         pf = proj_fields(st["p"])
         if pf and pf[0][0] == K:
+            # `self.cur_cfg_idx = self.loaded_cfg_idx` outside the Ok arm undoes the request: the selection goes back to the
+            # configuration that is in effect (a store whose value is read from the field that tracks the loaded file)
+            from kq.analysis import backward_slice as _bs
+            src_fields = set()
+            for o in rvalue_operands(st["rv"]):
+                src_fields |= {x[1] for x in _bs(f, o, maxdepth=4)[0] if x[0] == K}
+            if pf[0][2] == "cur_cfg_idx" and src_fields == {"loaded_cfg_idx"}:
+                restores.add(bi)
+                continue
             writes.append((bi, "self." + pf[0][2], st.get("ln")))
         for o in rvalue_operands(st["rv"]):
             if is_const(o) and (const_def(o) or "").endswith("MAPPED_KEYS"):
@@ -93,6 +103,7 @@ def rule_atomic(prog):
         if t["args"] and is_place(t["args"][0]) and not proj(t["args"][0]) and t["args"][0]["l"] in guard_muts and (callee_name(t) or "").startswith("kanata"):
             writes.append((bi, "global:" + guard_muts[t["args"][0]["l"]] + "." + callee_name(t).split("::")[-1] + "()", t.get("ln")))
         # drop glue of the replaced value runs as a call/drop on the same place: ignore
+    res.inst("restore/self.cur_cfg_idx", stores=len(restores), how="selection index set back to the loaded file's index (not a change of behaviour)")
     seen = set()
     for (bi, what, ln) in writes:
         if what in seen:
